@@ -29,7 +29,7 @@ func defaultOpts() genOpts {
 
 func genScalar(r *rand.Rand, o genOpts) any {
 	if r.Intn(25) == 0 { // integers beyond 2^53 that collapse when widened to float64, and text that spells a number or a boolean
-		return []any{9007199254740993, 9007199254740992, 9223372036854775807, 9223372036854775806, "1", "true", "1.5", "0"}[r.Intn(8)]
+		return []any{9007199254740993, 9007199254740992, 9223372036854775807, 9223372036854775806, "1", "true", "1.5", "0", 255, 256, 257, 65536, -1}[r.Intn(13)]
 	}
 	switch r.Intn(7) {
 	case 0:
